@@ -30,6 +30,47 @@ CHECKS = {
             "TLA+ spec Gtirb.tla: exhaustive transition-graph replay into the code"),
 }
 
+LOOK = ("TLA+ spec Gtirb.tla + GtirbJudge.tla: exhaustive transition-graph replay into the code, every lookup "
+        "answer judged by TLC against the spec's fresh-scan operators")
+CHECKS.update({
+    "C05": ("model_checking",
+            "TLC enumerates every history of offset/size/address edits and block moves of the bounded geometry "
+            "configurations (and simulates the composed one); each transition is executed on real objects, and after "
+            "every step seeded batches of all 18 block-lookup methods at all four scopes are answered by the code and "
+            "judged by TLC against BlocksOn/BlocksAt/...Off (exactly-once, kind filter, zero-size rule, Must/May "
+            "sandwich above interval scope), under address bases 0 and 2^64-40 (all four in the thorough tier).", LOOK),
+    "C06": ("model_checking",
+            "Same executions as C05 with intervals moving between sections and addresses going to and from None; "
+            "byte_intervals_on/at, sections_on/at and Section.address/size answers are judged by TLC against "
+            "IvsOn/IvsAt/SecsOn/SecsAt/SecAddr/SecSize.", LOOK),
+    "C10": ("model_checking",
+            "TLC checks NameIdxInv/RefIdxInv (both symbol indexes equal a scan) on every reachable state; every "
+            "transition (rename, payload change between block/proxy/int/None, symbol and block moves between modules) "
+            "is replayed and symbols_named(name) for every name and references of every block are compared with the "
+            "spec's scan after every step.",
+            "TLA+ spec Gtirb.tla: TLC invariant checking + exhaustive transition-graph replay into the code"),
+    "C11": ("model_checking",
+            "The CFG is a spec variable holding a set of <<source, target, label>>; every MutableSet method is an "
+            "action; TLC enumerates all edge sets over 2-3 nodes (attached/detached, self loops, absent vs all-false "
+            "label) and each transition is replayed: membership of every edge, len, iteration without duplicates, "
+            "out_edges/in_edges of every node and the blocks' own incoming/outgoing edges are compared.",
+            "TLA+ spec Gtirb.tla: exhaustive transition-graph replay into the code"),
+    "C12": ("model_checking",
+            "Lookups are spec actions that change only the lazy-index bookkeeping (materialised?, pending events); TLC "
+            "enumerates every placement of lookups among edits, the walk executes each on real objects (all three "
+            "get() branches confirmed by the hook), TLC judges every answer, a twin receiving the same edits and no "
+            "lookups must give the same final answers, and LazyIndex.tla model-checks the design "
+            "(what get() would return = fresh scan) over all schedules.",
+            "TLA+ specs Gtirb.tla (Lookup actions) + LazyIndex.tla: model checking, schedule enumeration replayed into the code"),
+    "C13": ("model_checking",
+            "All MutableMapping operations on symbolic_expressions plus interval address edits and moves are enumerated "
+            "by TLC and replayed; symbolic_expressions_at(_offset) answers at all scopes are judged by TLC against "
+            "SymxAt/SymxAtOff (exact and ascending at interval scope, sandwich above).", LOOK),
+    "C19": ("model_checking",
+            "TLC checks BytesInv (stored bytes <= size) over all sequences of size/initialized_size/contents/offset/"
+            "block-size/address edits and reloads; each transition is replayed and contents, block contents, block "
+            "addresses are compared; contains_offset/contains_address answers are judged by TLC.", LOOK),
+})
 NOT_YET = {}
 
 
@@ -62,7 +103,7 @@ def main():
             "enable": "checks copy /repo/python/gtirb into a scratch package (generated *_pb2.py, version.py) and run "
                       "it with GTIRB_VERIF_TRACE set; with the variable unset the hooks are inert",
             "baseline_off_cmd": "cd /repo && env -u GTIRB_VERIF_TRACE /venv/bin/python -m pytest -ra -q -p no:cacheprovider --timeout=900 --continue-on-collection-errors",
-            "source_commits": [],
+            "source_commits": ["bf6fb17"],
             "add_only": True,
         },
         "engines": [{"name": "tlc", "path": "/opt/veriftools/tla/tla2tools.jar",
